@@ -551,4 +551,152 @@ fn generate_hardening(seed: u64, thorough: bool, emit: &mut dyn FnMut(String)) {
             emit(format!("{} | fmt 0 {}", req_dt(&t), prec_tok(*prec)));
         }
     }
+    generate_duplicates(seed, thorough, emit);
+}
+
+// ------------------------------------------------------------------------------------ round-4 family: duplicates
+//
+// IDENTITY VERSUS EQUALITY.  Nothing in the statement says that the terms of a polynomial are pairwise different, and the
+// parser itself produces repeated terms (`x + y + x` is three terms).  A printer that decides "is this the leading
+// term?", "which power is this coefficient's?", "did I print this already?" by comparing VALUES instead of POSITIONS
+// only fails when a later term / coefficient is equal to the first (or to another one) - which random coefficients never
+// are.  Term lists of 2..6 terms with a later term equal to the first, to its neighbour, to another later term, all terms
+// equal, `p + p`, a duplicated negative / unit / zero / constant term; coefficient vectors of 2..8 entries over a two- or
+// three-letter alphabet (so that the leading, the constant and inner coefficients coincide); every printer, every
+// precision None, 0..17 each.  The parse-back oracle compares term by term, position by position.
+
+fn dup_alphabet() -> Vec<TermSpec> {
+    let v = |name: &str, e: f64| (name.to_string(), e);
+    vec![
+        (1.0, vec![v("x", 1.0)]),
+        (1.0, vec![v("y", 1.0)]),
+        (7.0, vec![v("x", 2.0)]),
+        (3.0, vec![]),
+        (-2.0, vec![v("x", 1.0)]),
+        (-1.0, vec![v("y", 1.0)]),
+        (0.5, vec![v("a", -1.0), v("z", 0.5)]),
+        (2.5, vec![v("x", 1.0), v("y", 2.0)]),
+        (1.0, vec![]),
+        (-1.0, vec![]),
+        (0.0, vec![v("x", 1.0)]),
+        (1.0 / 3.0, vec![v("t", 1.0 / 3.0)]),
+        (1.0, vec![v("x", 2.0), v("z", 1.0)]),
+        (0.125, vec![v("K", 3.0)]),
+        (1e21, vec![v("x", 1.0)]),
+        (2.0, vec![v("x", 0.0)]),
+    ]
+}
+
+fn generate_duplicates(seed: u64, thorough: bool, emit: &mut dyn FnMut(String)) {
+    let mut rng = Rng::new(seed ^ 0xC17_0004_D0B1);
+    let precs = all_precs();
+    let rounds = if thorough { 10 } else { 1 };
+    let alphabet = dup_alphabet();
+    let random_term = |rng: &mut Rng| -> TermSpec {
+        if rng.chance(2, 3) {
+            rng.pick(&alphabet).clone()
+        } else {
+            (gen_coef(rng), letters_subset(rng, 3).into_iter().map(|l| (l, gen_exp(rng))).collect())
+        }
+    };
+    for round in 0..rounds {
+        for (pi, prec) in precs.iter().enumerate() {
+            for nt in 2..=6usize {
+                for rep in 0..3usize {
+                    let mut terms: Vec<TermSpec> = (0..nt).map(|_| random_term(&mut rng)).collect();
+                    // the first term is one whose repetition is glued without a separator most of the time: a
+                    // non-negative coefficient
+                    if rep == 0 && terms[0].0 < 0.0 {
+                        terms[0].0 = -terms[0].0;
+                    }
+                    match (pi + nt + rep + round) % 7 {
+                        0 => {
+                            // a later term equal to the first
+                            let k = 1 + rng.below(nt as u64 - 1) as usize;
+                            terms[k] = terms[0].clone();
+                        }
+                        1 => {
+                            let k = nt - 1;
+                            terms[k] = terms[0].clone();
+                        }
+                        2 => terms[1] = terms[0].clone(),
+                        3 => {
+                            let t = terms[0].clone();
+                            for u in terms.iter_mut() {
+                                *u = t.clone();
+                            }
+                        }
+                        4 => {
+                            // two later terms equal to each other (and, when there is room, not to the first)
+                            if nt >= 3 {
+                                let k = 1 + rng.below(nt as u64 - 2) as usize;
+                                terms[k + 1] = terms[k].clone();
+                            } else {
+                                terms[1] = terms[0].clone();
+                            }
+                        }
+                        5 => {
+                            // the first term again, and once with the opposite sign
+                            let k = 1 + rng.below(nt as u64 - 1) as usize;
+                            terms[k] = terms[0].clone();
+                            if nt >= 3 {
+                                let j = 1 + (k % (nt - 1));
+                                if j != k {
+                                    terms[j] = (-terms[0].0, terms[0].1.clone());
+                                }
+                            }
+                        }
+                        _ => {
+                            // p + p
+                            let half: Vec<TermSpec> = terms[..nt.div_ceil(2)].to_vec();
+                            terms = half.iter().chain(half.iter()).cloned().collect();
+                        }
+                    }
+                    emit(req_di(*prec, &terms));
+                    if prec.is_none() && rep == 0 {
+                        emit(req_dt(&terms[0]));
+                    }
+                }
+            }
+            // coefficient vectors over a small alphabet: dense printer and fitted-model string
+            for len in 2..=8usize {
+                let letters: Vec<f64> = match rng.below(4) {
+                    0 => vec![1.0, -1.0],
+                    1 => vec![*rng.pick(&[3.0, 0.5, 2.25, 1.0, 12.0]), *rng.pick(&[5.0, -3.0, 0.5, -1.0, 0.0])],
+                    2 => {
+                        let c = gen_coef(&mut rng);
+                        vec![c, -c, gen_coef(&mut rng)]
+                    }
+                    _ => vec![gen_coef(&mut rng), gen_coef(&mut rng)],
+                };
+                let mut cs: Vec<f64> = (0..len).map(|_| *rng.pick(&letters)).collect();
+                match rng.below(4) {
+                    0 => cs[0] = cs[len - 1],               // constant = leading
+                    1 => cs[len - 2] = cs[len - 1],         // the two highest equal
+                    2 => {
+                        let c = cs[len - 1];
+                        cs.iter_mut().for_each(|x| *x = c); // all equal
+                    }
+                    _ => {}
+                }
+                if cs[len - 1] == 0.0 {
+                    cs[len - 1] = letters[0];
+                }
+                let var = *rng.pick(&[Some('x'), Some('y'), Some('t'), None, Some('λ')]);
+                emit(req_ds(*prec, var, &cs));
+                if pi % 3 == 0 {
+                    emit(req_dm(&cs));
+                }
+            }
+        }
+    }
+    // the literal texts of the lesson, through the parser first: `x + y + x` is three terms
+    for text in ["x + y + x", "7x^2 - y + 7x^2", "3 + x + 3", "x + x", "2x^2 + 3y + 3y", "-2x + 3y - 2x", "x + y + x + y + x", "0.5 + 0.5 + 0.5", "xy + z + xy - xy"] {
+        if let Ok(p) = IntermediatePolynomial::parse(text) {
+            let terms: Vec<TermSpec> = p.terms.iter().map(|t| (t.coefficient, t.variables.clone())).collect();
+            for prec in [None, Some(0), Some(2), Some(17)] {
+                emit(req_di(prec, &terms));
+            }
+        }
+    }
 }
